@@ -65,9 +65,23 @@ class Json:
                 continue
             trait, val, vty = site.args[p[1]]
             bt = _base_ty(vty)
+            spec = p[2] if len(p) > 2 else {}
+            # where the placeholder stands: after `\u` it is the four hex digits of an escape, otherwise a bare value
+            k = site.pieces.index(p)
+            before = site.pieces[k - 1][1] if k > 0 and site.pieces[k - 1][0] == "lit" else ""
+            if trait in ("lower_hex", "upper_hex") and bt in INT_TYS and before.endswith("\\u"):
+                if not (spec.get("width") == 4 and spec.get("flags") is not None and spec.get("flags") & 0x01000000 or
+                        (spec.get("width") == 4 and spec.get("flags") not in (None, 0))):
+                    self.problems.append(("json-escape:\\u-needs-four-hex-digits", where,
+                                          "a JSON \\u escape is exactly four hex digits ({:04x}); the placeholder's width is %s" % spec.get("width")))
+                continue
             if trait in ("lower_hex", "upper_hex", "octal", "binary") and bt in INT_TYS:
                 continue
             if trait in ("display", "debug") and bt in INT_TYS:
+                # a JSON number has no padding: leading zeros or blanks inside a number are not JSON
+                if spec.get("width") or spec.get("precision"):
+                    self.problems.append(("json-number:padded", where,
+                                          "an integer is written with a field width (%s): a zero-padded number is not a JSON number" % spec.get("width")))
                 continue
             if trait == "display" and bt in INERT_DISPLAY_TYS:
                 continue
@@ -296,6 +310,7 @@ def run(ctx):
     _r2(ctx)
     _r6_renders_whatever_is_stored(ctx, cg)
     _r7_gauges_move_together(ctx)
+    _r8_escaper_writes_json_escapes(ctx)
     # a lease whose row cannot be read is a lease missing from the listing: how the columns are read belongs to C18
     ctx.include("C18", rules=("R10",))
     # the gauges are computed from the rows at the time of the scrape: the pool keeps no copy of a count that time alone makes stale
@@ -483,6 +498,28 @@ def _r1_r4(ctx, M, cg):
                     ctx.check(any(ucfg.dominates(b3, ubb) and b3 != ubb for b3 in pre), "R5", "metrics-page-rendered-after-the-gauge-refresh",
                               ctx.where(ub, utm["sp"]), "the page must be produced only after %s ran (%d call(s) of it here)" % (refresher, len(pre)))
             ctx.floor("R5", "renderings of the metrics page", m, 1)
+
+
+def _r8_escaper_writes_json_escapes(ctx):
+    """R8 the escaper's own output is JSON: where it writes `\\u` it writes exactly four hex digits after it ({:04x})."""
+    from .. import fmtargs
+    P = ctx.P
+    n = 0
+    for b in P.bodies.values():
+        if not b.id.split("::{")[0].endswith("http::json_string"):
+            continue
+        for site in fmtargs.fmt_sites(P, b):
+            for k, pc in enumerate(site.pieces):
+                if pc[0] == "arg" and k > 0 and site.pieces[k - 1][0] == "lit" and site.pieces[k - 1][1].endswith("\\u"):
+                    n += 1
+                    ctx.saw(b)
+                    spec = pc[2] if len(pc) > 2 else {}
+                    trait = site.args[pc[1]][0] if pc[1] < len(site.args) else "?"
+                    ctx.check(trait in ("lower_hex", "upper_hex") and spec.get("width") == 4 and spec.get("flags") not in (None, 0), "R8",
+                              "unicode-escape-has-four-hex-digits", ctx.where(b),
+                              "after \\u the escaper writes %s with width %s: a JSON escape is \\u and exactly four hex digits" % (trait, spec.get("width")))
+    if ctx.config == "default":
+        ctx.floor("R8", "\\u escapes written by the escaper", n, 1)
 
 
 def _r7_gauges_move_together(ctx):
